@@ -79,7 +79,7 @@ PROPS["C16"] = {
     "modelled": WHOLE_FILE_MODELLED,
     "level_text": "Lean theorems: a source in which no line parses as a directive is reproduced as its lines joined by the source's line ending with the final one set by the option (all line lists, both passes); directive output enters the output as one chunk that is never passed through detection or tag substitution again; write_escape_roundtrip: for every non-empty text of terminator-free lines (first without leading/trailing blanks, others without trailing blanks) the source `-TXTPP#write L0 / -L1 / ...` yields exactly the lines joined by the line ending, whatever directive lines, look-alikes or tag names the text contains. Also checked on the implementation against the input text directly.",
     "design_ref": "5 C16",
-    "level_note": 'The round trip theorem is stated for the prefix `-`; other prefixes (incl. non-ASCII) are exercised by the implementation oracle.',
+    "level_note": 'The round trip theorem is stated for the prefix `-`; other prefixes (incl. non-ASCII) are exercised by the implementation oracle. The identity is also proved on bytes (plain_source_reproduced_byte_for_byte: byte-level line splitting, UTF-8 decoding and encoding, line-ending sniffing and the line loop inside one statement).',
     "technique": "Lean 4 proof (pass-through identity by induction over the machine) + round-trip oracle + differential correspondence",
     "assumptions": ["identity: no line of the source parses as a directive; escape: first line without leading blank, no trailing blanks, no CR/LF inside lines"],
 }
